@@ -163,7 +163,8 @@ where
                 manually_drop.set_len(0);
                 ManuallyDrop::drop(&mut manually_drop);
             }
-            panic!("{:?}", err);
+            // Hand the converter's own panic payload over to the caller
+            std::panic::resume_unwind(err);
         }
     }
 }
